@@ -152,6 +152,31 @@ def main():
             if not extra: break
             with ThreadPoolExecutor(max_workers=min(16, len(extra))) as ex: reps += list(ex.map(lambda u: run_unit(u, tier, known_open), extra))
             units = units + extra; closure_added += [u["id"] for u in extra]
+        # inline cross-check (thorough tier, or VERIF_INLINE=1): every (unit, applied callee contract) pair is run once more with the callee's contract REMOVED, i.e.
+        # with the callee's real body inlined.  A postcondition that is refuted there although the modular proof went through means the callee's contract hides a
+        # precondition that this call site does not meet (the scenario pre-state of a proof is an implicit `requires`): reported as a refutation of that obligation.
+        inline_stats = None
+        if (tier == "thorough" or os.environ.get("VERIF_INLINE")) and not os.environ.get("VERIF_NO_INLINE"):
+            by_id = {u.get("id"): u for u in units}
+            pairs = []
+            for rep in reps:
+                u = by_id.get(rep.get("unit"))
+                if not u or u.get("script") or rep.get("error"): continue
+                for cal in rep.get("contracts_applied", []):
+                    if cal == u.get("target") or (u["id"], cal.split(".")[-1]) in props.INLINE_SKIP: continue
+                    pairs.append(dict(u, pop=list(u.get("pop", [])) + [cal], id=u["id"] + "|inline:" + cal.split(".")[-1], inline_of=(u["id"], cal)))
+            with ThreadPoolExecutor(max_workers=16) as ex: ireps = list(ex.map(lambda u: run_unit(u, "quick", known_open), pairs))
+            inline_stats = {"pairs": len(pairs), "skipped_not_inlinable": 0, "agree": 0, "refuted_when_inlined": []}
+            proved_modular = {(rep["unit"], r["name"], r["path"].split("path")[0]) for rep in reps for r in rep["results"] if r["status"] == "proved"}
+            for u, irep in zip(pairs, ireps):
+                if irep.get("error"): inline_stats["skipped_not_inlinable"] += 1; continue
+                bad = [r for r in irep["results"] if r["status"] == "refuted" and not r.get("known_finding") and not r["canary"] and not r["guard"]
+                       and any(k[0] == u["inline_of"][0] and k[1] == r["name"] for k in proved_modular)]
+                if not bad: inline_stats["agree"] += 1; continue
+                for r in bad:
+                    r["detail"] = f"refuted with the real body of {u['inline_of'][1]} inlined although proved through its contract: the contract hides a precondition this call site does not meet. " + (r.get("detail") or "")
+                    inline_stats["refuted_when_inlined"].append({"unit": u["inline_of"][0], "callee": u["inline_of"][1], "obligation": r["name"], "path": r["path"]})
+                reps.append({"unit": u["id"], "target": u["target"], "results": bad, "error": None, "contracts_applied": []})
         harnesses = [h for h in P.get("bounded", []) if tier == "thorough" or not h.get("thorough_only")]
         if os.environ.get("VERIF_NO_HARNESS"): harnesses = []          # engine self-tests (mutation table) exercise the deductive part only
         with ThreadPoolExecutor(max_workers=4) as ex:
@@ -300,6 +325,7 @@ def main():
                "trusted_base": P.get("trusted_base", []) + ["pyvc symbolic interpreter + library models (assumed contracts of numpy/jax/orbax/omegaconf, see DESIGN.md section 9)", "z3 5.1.0 (cvc5 1.0.3 on unknowns)"] + (["Lean 4.33 kernel + Mathlib"] if P.get("lean") else []),
                "functions_under_contract": funcs,
                "callee_units_added_by_the_modularity_closure": closure_added,
+               "inline_cross_check": inline_stats,
                "library_models_used": sorted({m for rep in reps for m in rep.get("lib_used", [])}),
                "repo_functions_symbolically_executed": sorted({m for rep in reps for m in rep.get("executed", [])}),
                "obligations_by_backend": dict(by_backend, **({"lean": n_lean} if P.get("lean") else {})),
